@@ -119,11 +119,12 @@ def parse_value(text):
 def parse_state(label):
     text = label.replace('\\"', '"').replace("\\\\", "\\")
     st = {}
-    for part in re.split(r"\\n", text):
+    # one conjunct per variable; TLC's pretty printer may break a long value over several lines (literal \n + indentation)
+    for part in re.split(r"\\n(?=/\\)", text):
         part = part.strip()
         m = re.match(r"/\\\s*(\w+) = (.*)$", part, re.S)
         if m:
-            st[m.group(1)] = parse_value(m.group(2))
+            st[m.group(1)] = parse_value(re.sub(r"\\n\s*", " ", m.group(2)))
     return st
 
 
